@@ -235,4 +235,20 @@ theorem C12_resolver_safe (raw : Bytes) (m : Message) (h : decode raw = some m) 
       | (exfalso; simp at ht; omega)
       | (exfalso; omega)
 
+/-- Lying section counts, decodes that FAIL included: however many records the header announces, the
+    section loop starts at most len/11 + 1 record decodes (len/5 + 1 question decodes) before it has either
+    finished or met a record that does not decode - never more than the count either, and exactly the
+    count when the section decodes. `rrIters` / `qIters` are instrumented copies of the loops of
+    `decodeRRs` / `decodeQuestions` (`Lemmas/DNS.lean`). With `C12_name_bounded` (≤ 511 steps per name)
+    this bounds the work of a failing `DecodeMessage` as `C12_cost` does for a successful one. -/
+theorem C12_cost_any (raw : Bytes) (n : Nat) (w : Win) :
+    11 * rrIters raw n w ≤ w.b.length + 11 ∧ rrIters raw n w ≤ n ∧
+    5 * qIters raw n w ≤ w.b.length + 5 ∧
+    (∀ l w', decodeRRs raw n w = some (l, w') → rrIters raw n w = n) :=
+  ⟨rrIters_bound raw n w, rrIters_le raw n w, qIters_bound raw n w, fun l w' h => rrIters_ok raw n w w' l h⟩
+
+/-- non-vacuity: a header that announces 65535 answers over an empty rest costs one attempt -/
+example : rrIters [] 65535 ⟨12, []⟩ = 1 := by
+  simp [rrIters, decodeRR, readName, nameLabelsF, nameFuel]
+
 end DNS
